@@ -6,6 +6,7 @@ annotations, access given at class creation and/or instantiation) over real fiel
 drives the element side and every field's `r_data` and records `element.r_data` and every field
 port.  Trees are JSON: ["F", width, access, shape_kind, impl] | ["J", junk_kind] |
 ["M", [[key, tree], ...]] | ["A", [tree, ...]]."""
+import json
 from ..common import mkrnd
 from .. import sim as S
 
@@ -232,6 +233,15 @@ def gen_case(seed, tier, idx):
         ca, ia = ra, rnd.choice([a for a in RACC if a != ra])      # conflict -> ValueError
     else:
         ca, ia = None, None                                         # missing  -> ValueError
+    rs = mkrnd(seed, "regpack-share", idx)
+    for tree in (annot, fields):
+        # one container used in two places (`left: CHANNEL; right: CHANNEL`): a copy of a dict/list child under a
+        # second key; build() hands the library the SAME Python object for structurally equal containers
+        if tree is not None and tree[0] == "M" and rs.random() < 0.3:
+            kids = [x for k, x in tree[1] if x[0] in "MA" and leaves(x)]
+            free = [k for k in range(1, 40) if k not in [k0 for k0, _ in tree[1]]]
+            if kids and free:
+                tree[1].insert(rs.randint(0, len(tree[1])), [free[0], json.loads(json.dumps(rs.choice(kids)))])
     cfg = {"mode": mode, "annot": annot, "fields": fields, "cls_access": ca, "inst_access": ia}
     stim, exh = gen_stim(rnd, cfg, tier)
     return {"engine": "regpack", "kind": mode + ("/exh" if exh else ""), "cfg": cfg, "stim": stim, "exh": exh}
@@ -331,8 +341,15 @@ def mk_junk(k):
             (L["csr"].Field(L["Stub"], 1, "nc"),)][k]
 
 
-def mk_py(t):
-    """The Python object handed to Register / written as an annotation."""
+def mk_py(t, memo=None):
+    """The Python object handed to Register / written as an annotation.  Structurally equal containers are the
+    same object (the top-level call starts a new memo)."""
+    memo = {} if memo is None else memo
+    if t[0] in "MA":
+        key = json.dumps(t)
+        if key not in memo:
+            memo[key] = ({kname(k): mk_py(x, memo) for k, x in t[1]} if t[0] == "M" else [mk_py(x, memo) for x in t[1]])
+        return memo[key]
     L = lib()
     if t[0] == "F":
         _, w, acc, kind, impl = t
